@@ -8,7 +8,7 @@ use crate::wl::{self as gen_, asm};
 use crate::rng::{mix, tag, Rng};
 
 /// (family, weight, sections it uses with the main one first)
-pub const FAMILIES: &[(&str, u64)] = &[("aranges", 10), ("addr", 6), ("str", 4), ("pub", 6), ("line", 24), ("macros", 6), ("lists", 20), ("info", 40), ("cfi", 40), ("op", 30), ("names", 16), ("index", 12)];
+pub const FAMILIES: &[(&str, u64)] = &[("aranges", 10), ("addr", 6), ("str", 4), ("pub", 6), ("line", 24), ("macros", 6), ("lists", 20), ("info", 40), ("cfi", 40), ("op", 30), ("names", 16), ("index", 12), ("convert", 30)];
 
 pub fn families_for(prop: &str) -> Vec<(&'static str, u64)> {
     match prop {
@@ -29,6 +29,7 @@ pub fn main_section(family: &str) -> &'static str {
         "cfi" => "eh_frame",
         "op" => "expr",
         "names" => "debug_names",
+        "convert" => "debug_info",
         "index" => "debug_cu_index",
         _ => "",
     }
@@ -475,6 +476,14 @@ fn gen_family(rng: &mut Rng, c: &mut Case, fam: &str, be: bool) {
             c.put("debug_str_offsets", o);
             c.put("debug_line", asm::line_program(rng, be, asz));
             c.put("parent_debug_addr", asm::addr(rng, be));
+        }
+        "convert" => {
+            gen_family(rng, c, "info", be);
+            let n1 = std::mem::take(&mut c.note);
+            gen_family(rng, c, "cfi", be);
+            note = format!("{}+{}", n1, c.note);
+            c.set("addr_fail_at", if rng.chance(1, 8) { rng.below(12) as i64 } else { -1 });
+            c.set("write_fail_at", if rng.chance(1, 8) { rng.below(40) as i64 } else { -1 });
         }
         _ => panic!("gen_family: {}", fam),
     }
